@@ -176,16 +176,18 @@ def _flag_shard(arg):
             lines.append("lib = shared_library('sub/mylib', ['a.c'])")
             want_lib, priv_libs, priv_opts = 'mylib', [], []
         elif libkind == 'static-chain':
-            lines.append("inner = static_library('deep/inner', ['b.c'], link_options=['-Wl,--inner'])")
-            lines.append("lib = static_library('mylib', ['a.c'], libs=[inner], link_options=['-Wl,--mid'])")
-            want_lib, priv_libs, priv_opts = 'mylib', ['inner'], ['-Wl,--mid', '-Wl,--inner']
+            # options with a separate argument, the option word repeated across the chain
+            lines.append("inner = static_library('deep/inner', ['b.c'], link_options=['-Wl,--inner', '-u', 'inner_sym'])")
+            lines.append("lib = static_library('mylib', ['a.c'], libs=[inner], link_options=['-Wl,--mid', '-u', 'mid_sym'])")
+            want_lib, priv_libs, priv_opts = 'mylib', ['inner'], ['-Wl,--mid', '-u', 'mid_sym', '-Wl,--inner', '-u',
+                                                                   'inner_sym']
         else:
             lines.append("lib = library('mylib', ['a.c'])")
             want_lib, priv_libs, priv_opts = 'mylib', [], []
         lines.append("other = pkg_config('otherpkg', version='0.9', auto_fill=%r)" % False)
         lines.append("pkg_config('mypkg', version='1.5', desc='a %s', includes=[inc, inc2], libs=[lib], "
                      "options=[%r, opts.define('DEF', %r)], link_options=[%r], "
-                     "link_options_private=['-Wl,--priv'], requires=['otherpkg'], auto_fill=%r)"
+                     "link_options_private=['-Wl,--priv', '-u', 'priv_sym'], requires=['otherpkg'], auto_fill=%r)"
                      % (incname.replace("'", ''), '-DOPT=' + opt, opt, '-Wl,--x=' + opt.replace(',', ''), auto))
         files['build.bfg'] = '\n'.join(lines) + '\n'
         pr = proj.Proj(os.path.join(root, 'p'), 'make', files, files['build.bfg'],
@@ -217,11 +219,18 @@ def _flag_shard(arg):
                 problems.append('%s --libs: %r, declared %r %s' % (tag, got, norm_flags(exp), err[-100:]))
             rc, out, err = pkgconf(['--libs', '--static', pcname], paths)
             got = norm_flags(sh_split(out))
-            exps = exp + ['-Wl,--priv'] + priv_opts + ['-l' + l for l in priv_libs]
+            exps = exp + ['-Wl,--priv', '-u', 'priv_sym'] + priv_opts + ['-l' + l for l in priv_libs]
             gl = [g for g in got if not g.startswith('-L')]
             el = [g for g in norm_flags(exps) if not g.startswith('-L')]
             if rc != 0 or gl != el:
                 problems.append('%s --libs --static: %r, declared %r %s' % (tag, gl, el, err[-100:]))
+            # an option and its separate argument must stay adjacent
+            seq = sh_split(out)
+            pairs = sorted(seq[i + 1] if i + 1 < len(seq) else None for i, w in enumerate(seq) if w == '-u')
+            epairs = sorted(exps[i + 1] for i, w in enumerate(exps) if w == '-u')
+            if rc == 0 and pairs != epairs:
+                problems.append('%s --libs --static: the arguments following -u are %r, declared %r'
+                                % (tag, pairs, epairs))
             rc, out, err = pkgconf(['--print-requires', pcname], paths)
             if rc != 0 or [l.split()[0] for l in out.splitlines() if l.strip()] != ['otherpkg']:
                 problems.append('%s --print-requires: %r' % (tag, out))
